@@ -41,9 +41,14 @@
 (*   bts s / lbts s C := bit 0 of mem[s]; mem[s] := mem[s] | 1.  BTS with a  *)
 (*                  memory operand is a read followed by a write (two steps) *)
 (*                  unless it carries a LOCK prefix (lbts)                   *)
+(*   lea d s v      d := s + v        testi d v / andi d s v: Z := ((d & 1) = 0) *)
+(*                  / d := s & 1 (mask 1 only)                               *)
+(*   gcasr d s      Z := atomic.CompareAndSwapUint32(&l.state, d, s)         *)
+(*   gastorer s / gstorer s   atomic / plain store of register s             *)
 (*   jc to / jnc to jump on the carry flag;  jls / jhi: on (C or Z) / not      *)
 (*   havoc d        d := the result of a local computation (shift, add, ...   *)
-(*                  on registers / stack slots): any small value, any flags  *)
+(*                  on registers / stack slots): an unknown non-zero count   *)
+(*                  (1 or 2: enough for a DEC/JNZ loop to go both ways)      *)
 (*   flags / cmpc d v   comparison whose flags are not (fully) modelled: any  *)
 (*                  outcome (cmpc: Z as cmpi, carry arbitrary)                *)
 (*   jnd to         jump on a flag that is not modelled: either way           *)
@@ -69,6 +74,8 @@ CONSTANTS Tasks, MaxOps,
           TSO,             \* model per-task store buffers
           Nb0,             \* initial value of the 4 bytes that follow the lock word
           EnvNb,           \* the neighbour is another lock, taken and released by the environment at any time
+          WordMod,         \* 0, or a small modulus for arithmetic on the lock word (atomic add): a count kept in the
+                           \* lock word wraps after WordMod steps instead of 2^32
           RelPlain,        \* leg M variant: Release is the plain store  l.state = 0  instead of the extracted body
           Bug              \* design mutants of the interpreter (leg M): "none" | "XchgNotAtomic" | "BufferNotFifo"
 
@@ -86,14 +93,17 @@ VARIABLES state,     \* the lock word in memory
           reg,       \* task -> [AX, BX, CX, ATT, Z]
           tmp,       \* task -> value of the datum read on entry (also scratch of design mutant XchgNotAtomic)
           done,      \* completed critical sections
+          fx,        \* task -> its current TryToAcquire has changed the VALUE of the lock word (history)
+          alone,     \* task -> during its current TryToAcquire every other task has been outside any call and
+                     \*         outside the lock all the time (history)
           nops,      \* task -> calls made
           wild       \* an instruction used a register / a return in a way the interpreter cannot justify
-vars == <<state, nb, nbenv, counter, buf, pc, cur, hold, reg, tmp, done, nops, wild>>
+vars == <<state, nb, nbenv, counter, buf, pc, cur, hold, reg, tmp, done, fx, alone, nops, wild>>
 
 Init == /\ state = 0 /\ nb = Nb0 /\ nbenv = Nb0 /\ counter = 0 /\ buf = [t \in Tasks |-> <<>>]
         /\ pc = [t \in Tasks |-> 0] /\ cur = [t \in Tasks |-> "acq"] /\ hold = [t \in Tasks |-> FALSE]
         /\ reg = [t \in Tasks |-> NoRegs]
-        /\ tmp = [t \in Tasks |-> 0] /\ done = 0 /\ nops = [t \in Tasks |-> 0] /\ wild = <<>>
+        /\ tmp = [t \in Tasks |-> 0] /\ done = 0 /\ fx = [t \in Tasks |-> FALSE] /\ alone = [t \in Tasks |-> FALSE] /\ nops = [t \in Tasks |-> 0] /\ wild = <<>>
 
 ---------------------------------------------------------------------------
 (* memory *)
@@ -118,6 +128,11 @@ StoreW(t, v, w) ==
   IF w # 8 THEN PlainStore(t, "state", Merge(Read(t, "state"), v, w))
   ELSE IF TSO THEN /\ buf' = [buf EXCEPT ![t] = Append(Append(@, <<"state", v>>), <<"nb", 0>>)] /\ UNCHANGED <<state, nb, counter>>
   ELSE state' = v /\ nb' = 0 /\ UNCHANGED <<buf, counter>>
+\* a TryToAcquire that changes the value of the lock word is remembered (it may only do so when it succeeds)
+\* (the value as the task itself sees it, i.e. including its own buffered plain stores; draining an older store of
+\* its own does not change that view)
+ViewAfter(t) == LET n == Newest(buf'[t], "state", Len(buf'[t])) IN IF n = <<>> THEN state' ELSE n[1]
+Touched(t) == fx' = [fx EXCEPT ![t] = @ \/ (cur[t] = "try" /\ pc[t] # 0 /\ ViewAfter(t) # Read(t, "state"))]
 Drained(t) == buf[t] = <<>>
 Drain(t) == /\ TSO /\ buf[t] # <<>>
             /\ \E i \in (IF Bug = "BufferNotFifo" THEN 1..Len(buf[t]) ELSE {1}) :
@@ -125,10 +140,11 @@ Drain(t) == /\ TSO /\ buf[t] # <<>>
                  /\ IF buf[t][i][1] = "state" THEN state' = buf[t][i][2] /\ UNCHANGED <<counter, nb>>
                     ELSE IF buf[t][i][1] = "nb" THEN nb' = buf[t][i][2] /\ UNCHANGED <<counter, state>>
                     ELSE counter' = buf[t][i][2] /\ UNCHANGED <<state, nb>>
+            /\ Touched(t)
             /\ UNCHANGED <<nbenv, pc, cur, hold, reg, tmp, done, nops, wild>>
 \* the environment takes / releases the lock that lives in the neighbour bytes
 Env == /\ EnvNb /\ nb \in {0, 1} /\ nb' = 1 - nb /\ nbenv' = 1 - nb
-       /\ UNCHANGED <<state, counter, buf, pc, cur, hold, reg, tmp, done, nops, wild>>
+       /\ UNCHANGED <<state, counter, buf, pc, cur, hold, reg, tmp, done, fx, nops, wild>>
 
 ---------------------------------------------------------------------------
 (* calls *)
@@ -137,23 +153,23 @@ Enter(t, entry, what) == /\ pc' = [pc EXCEPT ![t] = entry] /\ cur' = [cur EXCEPT
 NoStray == \A u \in Tasks : ~(cur[u] = "srel" /\ pc[u] # 0)
 CallAcquire(t) == /\ EntryAcq > 0 /\ pc[t] = 0 /\ nops[t] < MaxOps /\ NoStray
                   /\ Enter(t, EntryAcq, "acq") /\ nops' = [nops EXCEPT ![t] = @ + 1]
-                  /\ UNCHANGED <<state, nb, nbenv, counter, buf, hold, tmp, done, wild>>
+                  /\ UNCHANGED <<state, nb, nbenv, counter, buf, hold, tmp, done, fx, wild>>
 CallTry(t) == /\ EntryTry > 0 /\ pc[t] = 0 /\ nops[t] < MaxOps /\ NoStray
               /\ Enter(t, EntryTry, "try") /\ nops' = [nops EXCEPT ![t] = @ + 1]
+              /\ fx' = [fx EXCEPT ![t] = FALSE]
               /\ UNCHANGED <<state, nb, nbenv, counter, buf, hold, tmp, done, wild>>
 \* the holder writes the datum (a plain store) and calls Release
 RelEntry == IF RelPlain THEN Len(Prog) + 1 ELSE EntryRel
 CallRelease(t) == /\ pc[t] = 0 - 1 /\ RelEntry > 0
                   /\ PlainStore(t, "counter", tmp[t] + 1)
                   /\ Enter(t, RelEntry, "rel") /\ hold' = [hold EXCEPT ![t] = TRUE]
-                  /\ UNCHANGED <<nbenv, tmp, done, nops, wild>>
+                  /\ UNCHANGED <<nbenv, tmp, done, fx, nops, wild>>
 \* "Calling Release while the lock is free has no effect": any task, also one that never acquired, runs the Release
 \* body while the lock is free and every task is outside any call; the lock must stay free and acquirable.
 CallStray(t) == /\ RelEntry > 0 /\ nops[t] < MaxOps
-                /\ \A u \in Tasks : pc[u] = 0 /\ buf[u] = <<>>
-                /\ state = 0
+                /\ \A u \in Tasks : pc[u] = 0 /\ buf[u] = <<>>       \* nobody holds the lock or is inside a call: it is free
                 /\ Enter(t, RelEntry, "srel") /\ nops' = [nops EXCEPT ![t] = @ + 1]
-                /\ UNCHANGED <<state, nb, nbenv, counter, buf, hold, tmp, done, wild>>
+                /\ UNCHANGED <<state, nb, nbenv, counter, buf, hold, tmp, done, fx, wild>>
 \* leg M variant RelPlain: Release == l.state = 0 ; return
 PlainRel(t) == /\ RelPlain /\ cur[t] \in {"rel", "srel"} /\ pc[t] \in {Len(Prog) + 1, Len(Prog) + 2}
                /\ IF pc[t] = Len(Prog) + 1
@@ -162,7 +178,7 @@ PlainRel(t) == /\ RelPlain /\ cur[t] \in {"rel", "srel"} /\ pc[t] \in {Len(Prog)
                   ELSE /\ cur[t] = "srel" => Drained(t)
                        /\ pc' = [pc EXCEPT ![t] = 0] /\ done' = (IF cur[t] = "rel" THEN done + 1 ELSE done)
                        /\ UNCHANGED <<state, nb, counter, buf, hold>>
-               /\ UNCHANGED <<nbenv, cur, reg, tmp, nops, wild>>
+               /\ UNCHANGED <<nbenv, cur, reg, tmp, fx, nops, wild>>
 
 Goto(t, n) == pc' = [pc EXCEPT ![t] = n]
 SetReg(t, r, v) == reg' = [reg EXCEPT ![t][r] = v]
@@ -172,6 +188,7 @@ Same == UNCHANGED <<state, nb, counter, buf>>
 \* a store to the lock word inside Release gives the lock up
 Gives(t) == hold' = [hold EXCEPT ![t] = IF cur[t] = "rel" THEN FALSE ELSE @]
 Keeps == UNCHANGED hold
+AddW(a, b) == IF WordMod = 0 THEN a + b ELSE (a + b) % WordMod      \* atomic add on the lock word
 Small(v) == v \in 0..60          \* a value a lock word may hold: 0..3 or the class id of a constant
 \* register contents as an instruction of width w sees them
 RegW(v, w) == IF w = 8 THEN v ELSE Lo(v)
@@ -200,7 +217,7 @@ Step(t) ==
        [] i.op = "gastore" -> /\ Drained(t) /\ Goto(t, n) /\ UNCHANGED <<reg, nb, counter, buf>> /\ state' = i.v /\ Good /\ Gives(t)
        [] i.op = "gswap"   -> /\ Drained(t) /\ Goto(t, n) /\ SetReg(t, i.d, state) /\ state' = i.v
                               /\ UNCHANGED <<nb, counter, buf>> /\ Good /\ Gives(t)
-       [] i.op = "gadd"    -> /\ Drained(t) /\ Goto(t, n) /\ SetReg(t, i.d, state + i.v) /\ state' = state + i.v
+       [] i.op = "gadd"    -> /\ Drained(t) /\ Goto(t, n) /\ SetReg(t, i.d, AddW(state, i.v)) /\ state' = AddW(state, i.v)
                               /\ UNCHANGED <<nb, counter, buf>> /\ Good /\ Gives(t)
        [] i.op = "gcas"    -> /\ Drained(t) /\ Goto(t, n) /\ reg' = [reg EXCEPT ![t].Z = (state = i.v)]
                               /\ state' = IF state = i.v THEN i.to ELSE state
@@ -223,8 +240,24 @@ Step(t) ==
                               /\ state' = IF state % 2 = 1 THEN state ELSE state + 1
                               /\ Gives(t)
                               /\ IF r[i.s] = PTR THEN Good ELSE Bad(t, "bts through a register that does not hold the lock address")
+       [] i.op = "lea"     -> /\ Goto(t, n) /\ Same /\ Keeps
+                              /\ IF Small(Lo(r[i.s])) THEN SetReg(t, i.d, Lo(r[i.s]) + i.v) /\ Good
+                                 ELSE SetReg(t, i.d, UNDEF) /\ Bad(t, "address arithmetic on a register that holds no lock-word value")
+       [] i.op = "testi"   -> /\ Goto(t, n) /\ Same /\ Keeps
+                              /\ reg' = [reg EXCEPT ![t].Z = (Lo(r[i.d]) % 2 = 0)]
+                              /\ IF r[i.d] = UNDEF THEN Bad(t, "test of an undefined register") ELSE Good
+       [] i.op = "andi"    -> /\ Goto(t, n) /\ Same /\ Keeps /\ SetReg(t, i.d, Lo(r[i.s]) % 2)
+                              /\ IF r[i.s] = UNDEF THEN Bad(t, "use of an undefined register") ELSE Good
+       [] i.op = "gcasr"   -> /\ Drained(t) /\ Goto(t, n) /\ reg' = [reg EXCEPT ![t].Z = (state = r[i.d])]
+                              /\ state' = IF state = r[i.d] THEN r[i.s] ELSE state
+                              /\ UNCHANGED <<nb, counter, buf>> /\ (IF state = r[i.d] THEN Gives(t) ELSE Keeps)
+                              /\ IF Small(r[i.d]) /\ Small(r[i.s]) THEN Good ELSE Bad(t, "compare-and-swap of values that are no lock-word values")
+       [] i.op = "gastorer" -> /\ Drained(t) /\ Goto(t, n) /\ UNCHANGED <<reg, nb, counter, buf>> /\ state' = r[i.s] /\ Gives(t)
+                               /\ IF Small(r[i.s]) THEN Good ELSE Bad(t, "store of a value that is no lock-word value")
+       [] i.op = "gstorer" -> /\ Goto(t, n) /\ UNCHANGED reg /\ PlainStore(t, "state", r[i.s]) /\ Gives(t)
+                              /\ IF Small(r[i.s]) THEN Good ELSE Bad(t, "store of a value that is no lock-word value")
        [] i.op = "havoc"   -> /\ Goto(t, n) /\ Good /\ Same /\ Keeps
-                              /\ \E v \in 0..(CMod - 1), z, c \in BOOLEAN : reg' = [reg EXCEPT ![t][i.d] = v, ![t].Z = z, ![t].C = c]
+                              /\ \E v \in {1, 2}, c \in BOOLEAN : reg' = [reg EXCEPT ![t][i.d] = v, ![t].Z = FALSE, ![t].C = c]
        [] i.op = "flags"   -> /\ Goto(t, n) /\ Good /\ Same /\ Keeps
                               /\ \E z, c \in BOOLEAN : reg' = [reg EXCEPT ![t].Z = z, ![t].C = c]
        [] i.op = "cmpc"    -> /\ Goto(t, n) /\ Good /\ Same /\ Keeps
@@ -244,7 +277,8 @@ Step(t) ==
                               /\ reg' = [reg EXCEPT ![t].Z = (ReadW(t, i.w) = i.v)]
                               /\ IF r[i.s] = PTR THEN Good ELSE Bad(t, "compare through a register that does not hold the lock address")
        [] i.op \in {"dec", "inc"} ->     \* a register clobbered by CALL holds an arbitrary count
-                              \E v0 \in (IF r[i.d] \in 0..(CMod - 1) \/ r[i.d] \in {PTR, YIELD} THEN {r[i.d]} ELSE 0..(CMod - 1)) :
+                              \* (an unknown count: one that runs out at this step, one that does not)
+                              \E v0 \in (IF r[i.d] \in 0..(CMod - 1) \/ r[i.d] \in {PTR, YIELD} THEN {r[i.d]} ELSE {1, 2}) :
                               LET v == (v0 + (IF i.op = "dec" THEN CMod - 1 ELSE 1)) % CMod IN
                               /\ Goto(t, n) /\ Same /\ Keeps
                               /\ reg' = [reg EXCEPT ![t][i.d] = v, ![t].Z = (v = 0)]
@@ -284,30 +318,43 @@ Step(t) ==
           ELSE IF i.op = "bts" THEN tmp' = [tmp EXCEPT ![t] = LET v == Read(t, "state") IN IF v % 2 = 1 THEN v ELSE v + 1]
           ELSE UNCHANGED tmp
        /\ done' = IF i.op = "ret" /\ cur[t] = "rel" /\ reg[t].RET = 0 THEN done + 1 ELSE done
+  /\ Touched(t)
   /\ UNCHANGED <<nbenv, cur, nops>>
 
 \* second half of a read-modify-write that is not atomic (design mutant XchgNotAtomic; BTS without LOCK)
 XchgWrite(t) == /\ pc[t] < 0 - 1000
                 /\ state' = tmp[t] /\ pc' = [pc EXCEPT ![t] = (0 - pc[t]) - 1000 + 1]
+                /\ Touched(t)
                 /\ UNCHANGED <<nb, nbenv, counter, buf, cur, hold, reg, tmp, done, nops, wild>>
 
 Proceed(t) == Step(t) \/ XchgWrite(t) \/ CallRelease(t) \/ PlainRel(t) \/ Drain(t)
-Next == (\E t \in Tasks : CallAcquire(t) \/ CallTry(t) \/ CallStray(t) \/ Proceed(t)) \/ Env
-Spec == Init /\ [][Next]_vars /\ \A t \in Tasks : WF_vars(Proceed(t))
+\* history: has the TryToAcquire of t run all alone so far ?
+OthersOut(t) == \A u \in Tasks \ {t} : pc'[u] = 0 /\ buf'[u] = <<>>
+AloneUpdate == alone' = [t \in Tasks |->
+                  IF pc[t] = 0 /\ pc'[t] # 0 /\ cur'[t] = "try" THEN OthersOut(t) /\ \A u \in Tasks \ {t} : pc[u] = 0 /\ buf[u] = <<>>
+                  ELSE IF cur[t] = "try" /\ pc[t] # 0 THEN alone[t] /\ OthersOut(t)
+                  ELSE alone[t]]
+Next == ((\E t \in Tasks : CallAcquire(t) \/ CallTry(t) \/ CallStray(t) \/ Proceed(t)) \/ Env) /\ AloneUpdate
+Spec == Init /\ [][Next]_vars /\ \A t \in Tasks : WF_vars(Proceed(t) /\ AloneUpdate)
 
 ---------------------------------------------------------------------------
 (* The property C08, on the extracted code *)
 InRelease(t) == cur[t] = "rel" /\ pc[t] # 0 /\ pc[t] # 0 - 1
 Holding == {t \in Tasks : pc[t] = 0 - 1 \/ (InRelease(t) /\ hold[t])}
 MutualExclusion == Cardinality(Holding) <= 1
-\* while somebody holds the lock the lock word (as every other task will see it) says so
-HeldMeansLocked == Holding # {} => state # 0
-\* a lock word that says "taken" while every task is outside any call can never be taken again:
-\* Release really frees the lock, a try-acquire that reports FALSE has not taken it
-FreeWhenIdle == (\A t \in Tasks : pc[t] = 0 /\ buf[t] = <<>>) => state = 0
+\* Whether the lock word means "held" or "free" is the implementation's business (0/1 today, but e.g. a
+\* generation count with a held bit is just as good), so it is observed only through the lock's own operations:
+\* a TryToAcquire that ran while every other task was outside any call and outside the lock must succeed
+\* (Release really frees the lock, a try that reported FALSE has not taken it, a stray Release on a free lock has
+\* no effect), and a lock word that wrongly reads "free" shows as a second holder (MutualExclusion).
+TryHonestWhenAlone == \A t \in Tasks : (pc[t] = 0 /\ cur[t] = "try") => ~alone[t]
 \* no update of the protected datum is lost: the work of one holder is visible to the next
 Visibility == (\A t \in Tasks : buf[t] = <<>>) => counter = done + Cardinality({t \in Tasks : InRelease(t)})
 EntrySeesAll == \A t \in Tasks : pc[t] = 0 - 1 => tmp[t] = done + Cardinality({u \in Tasks : InRelease(u)})
+\* "returns false without side effects": a TryToAcquire that reports FALSE has never changed the VALUE of the lock
+\* word (a failed exchange of the held value over the same value, a failed compare-and-swap, a test-and-test-and-set
+\* all leave it as it was; a counter bumped by every failed try does not)
+TryFailsClean == \A t \in Tasks : (pc[t] = 0 /\ cur[t] = "try") => ~fx[t]
 \* lock operations never modify the bytes that follow the lock word
 NeighbourIntact == (\A t \in Tasks : buf[t] = <<>>) => nb = nbenv
 \* every register use and every return of the extracted code is justified
